@@ -345,6 +345,16 @@ func generateMore(suite string, seed uint64, i int, r *rng, id string, g gp) *Ca
 			p2 = geom2{L[last] + (R[last]-L[last])*float64(r.rangeIn(0, 4))/4, T[last] + (B[last]-T[last])*float64(r.rangeIn(0, 4))/4}
 		}
 		_ = half
+		// the whole picture in another unit: exact power-of-two scaling (tiny or huge corridors)
+		if suite != "c20" && r.chance(1, 3) {
+			k := []int{-24, -20, -17, -10, 10, 20}[r.intn(6)]
+			sc := func(x float64) float64 { return math.Ldexp(x, k) }
+			for j := range rects {
+				rects[j] = []any{fs(sc(L[j])), fs(sc(T[j])), fs(sc(R[j])), fs(sc(B[j]))}
+			}
+			p1 = geom2{sc(p1.x), sc(p1.y)}
+			p2 = geom2{sc(p2.x), sc(p2.y)}
+		}
 		op := "shortest"
 		if suite == "c20" {
 			op = "fitspline"
@@ -352,7 +362,7 @@ func generateMore(suite string, seed uint64, i int, r *rng, id string, g gp) *Ca
 		return &Case{ID: id, Op: op, Arg: map[string]any{"rects": rects, "p1": []any{fs(p1.x), fs(p1.y)}, "p2": []any{fs(p2.x), fs(p2.y)},
 			"cls": cls, "timeout_ms": 4000.0}}
 	case "solve": // C20 root finder: polynomials built from chosen roots (dyadic, so that the coefficients are exact)
-		kind := r.intn(7)
+		kind := r.intn(8)
 		rt := func() float64 { return float64(r.rangeIn(-64, 64)) / 8 }
 		a := float64(r.rangeIn(1, 6))
 		if r.chance(1, 2) {
@@ -385,6 +395,12 @@ func generateMore(suite string, seed uint64, i int, r *rng, id string, g gp) *Ca
 			r1 := rt()
 			co = []float64{-a * r1, a, 0, 0}
 			truth = []any{fs(r1)}
+		case 7: // three distinct real roots close to each other (1/64 .. 1/8 apart)
+			r1 := float64(r.rangeIn(-256, 256)) / 64
+			r2 := r1 + float64(r.rangeIn(1, 8))/64
+			r3 := r2 + float64(r.rangeIn(1, 8))/64
+			co = []float64{-a * r1 * r2 * r3, a * (r1*r2 + r1*r3 + r2*r3), -a * (r1 + r2 + r3), a}
+			truth = []any{fs(r1), fs(r2), fs(r3)}
 		case 6: // vanishing leading coefficient around the solver's epsilon: a tiny cubic term on top of a quadratic
 			r1, r2 := rt(), rt()
 			tiny := math.Ldexp(1, -r.rangeIn(18, 30)) // 2^-18 .. 2^-30  (epsilon3 = 1e-7 ~ 2^-23)
